@@ -9,6 +9,7 @@ specs/c13_pd.py; no quantified facts are assumed):
 
   df.iloc[P]            POSITIONAL take     r: pd_src(r) = df, pd_npos(r) = len(P), pd_pos(r, j) = P[j]
                                             (obligation: every P[j] lies inside the table)
+  df.loc[L]             LABEL take          opaque frame pd.loc_take(df, L): no positional description (round 3)
   pd.concat(L)          row concatenation   r: pd_nparts(r) = len(L), pd_part(r, j) = L[j]
   np.array_split(x, k)  k consecutive chunks covering x (sizes differ by <= 1): list of length k,
                         element j = pd.chunk(x, k, j)              (obligation: k >= 1)
@@ -38,7 +39,7 @@ from .. import lib
 from ..state import Unsupported
 from ..vals import ANY, I, INT, T, V, Val, as_int, as_ref, fresh_name, uf, v_none
 
-PD_CLASSES = ('DataFrame', 'Series', 'Index', 'ILoc', 'NDArray')
+PD_CLASSES = ('DataFrame', 'Series', 'Index', 'ILoc', 'Loc', 'NDArray')
 
 
 def TPd(cls):
@@ -110,6 +111,12 @@ def _pd_attr(ex, st, obj, name, node):
             return r
         if name == 'columns':
             return pd_fun(ex, st, 'columns', [obj], 'Index')
+        if name == 'loc':
+            # round 3 (agent m2): label-based indexer, so that an edit iloc -> loc is DECIDED (it fails the positional
+            # postconditions) instead of leaving the verifier's subset
+            r = pd_fun(ex, st, 'loc', [obj], 'Loc')
+            st.assume(uf('pd.loc_owner', Val, Val)(r.t) == obj.t)
+            return r
     return None        # methods: resolved by the ref_method hook when called
 
 
@@ -143,6 +150,12 @@ def _pd_subscript(ex, st, obj, idx, node):
     cls = obj.ty.cls
     if cls == 'ILoc':
         return _take(ex, st, uf('pd.iloc_owner', Val, Val)(obj.t), idx, node)
+    if cls == 'Loc':
+        if idx.kind != 'list':
+            raise Unsupported('loc with a non-list argument')
+        ex.ctx.note('LIBSPEC-pd loc[list]: LABEL take (rows whose index label equals list[j]); an opaque frame pd.loc_take(df, list) '
+                    'that is NOT described as a positional take (labels are positions only for a default index)')
+        return pd_fun(ex, st, 'loc_take', [V(uf('pd.loc_owner', Val, Val)(obj.t), TPd('DataFrame')), idx], 'DataFrame')
     if cls == 'DataFrame':
         if isinstance(getattr(node, 'slice', None), ast.Compare):
             raise Unsupported('element-wise comparison of a Series (not modelled by LIBSPEC-pd)')
